@@ -45,6 +45,16 @@ func SortedKeys[V any](m map[string]V) []string {
 	return ks
 }
 
+// SortedIntKeys returns the keys of m in increasing order.
+func SortedIntKeys[V any](m map[int]V) []int {
+	ks := make([]int, 0, len(m))
+	for k := range m {
+		ks = append(ks, k)
+	}
+	sort.Ints(ks)
+	return ks
+}
+
 var (
 	xfszOnce sync.Once
 	rlimitMu sync.Mutex
